@@ -81,6 +81,37 @@ CLAIMED = {
         "the Go scheduler/memory model is not modelled; mixed-level printing of a never-printed module is a recorded finding.",
    note="Lean kernel + propext/Quot.sound; protocol model hand-written; mutual exclusion of sync.Mutex and the Go memory model trusted; fact extractor trusted; race detector is supporting evidence only.",
    technique="Lean 4 proof over a protocol model parameterised by source-extracted facts + race-detector correspondence runs", design="§4 C13"),
+ "C04": dict(
+   text="Lean proof over M-Resolve (module skeletons of any size): in every accepted module each reference to a type, comdat, global entity or metadata node resolves to an "
+        "object that is a listed definition of exactly that namespace and key (forward/mutual/self references alike), locals resolve inside their own function, and the resolved "
+        "edges are exactly the index lookups. Tied by agreement on acceptance and ordered definition lists for generated modules, and by a reflection walk of the whole parsed "
+        "object graph (orphans, placeholders, foreign locals, parent links). Partial: instruction payloads are abstracted to reference sites.",
+   note="Lean kernel + propext/Quot.sound; M-Resolve hand-written; generator renders text and skeleton from one description; closure walker trusted.",
+   technique=T, design="§4 C04"),
+ "C05": dict(
+   text="Lean proof over M-Resolve that an undefined reference (type, comdat, global entity, metadata ID, local, label) or a duplicated definition makes translation fail for "
+        "every visiting order, that the undefined attribute group is accepted, and that the only outcomes are module or error. Tied by single-point fault injection on "
+        "generated modules (text and skeleton mutated together): model and parser must agree and the oracle demands error, never ok or panic. Two panics on the unchanged "
+        "tree are recorded findings.",
+   note="Lean kernel + propext/Quot.sound; M-Resolve hand-written; fault injector in vlib/modgen.py trusted.", technique=T, design="§4 C05"),
+ "C12": dict(
+   text="Lean proof over M-Resolve that acceptance and the resolved module are independent of the order in which the translator's maps are iterated, and that sorted definition "
+        "lists do not depend on input order. Tied by repeated parses through all four entry points with identical text/lists demanded. Partial: goroutine schedules and "
+        "package-level state are not modelled.",
+   note="Lean kernel + propext/Quot.sound; map order is quantified in the model, sampled on the implementation.", technique=T, design="§4 C12"),
+ "C01": dict(
+   text="Partial. Lean proof of the print->parse round trip for M-Core (opaque type definitions + integer globals: all names, widths, values, both literal notations) built on the "
+        "leaf theorems (C09, C11 decode/inject, C20); M-Core text is compared byte for byte with the implementation. The rest of the grammar is tied by correspondence: "
+        "generated typed modules must be byte-exact fixpoints and closed graphs, corpus and shuffled modules stable.",
+   note="Lean kernel + propext/Quot.sound/Classical.choice; M-Core hand-written; llir/ll lexer+parser trusted to deliver the tokens; outside M-Core no theorem.", technique=T, design="§4 C01"),
+ "C02": dict(
+   text="Partial. Lean proof for M-Core that one parse+print step is a normal form (canon idempotent, second parse identical, text token-identical); correspondence: y = print(parse(x)) "
+        "accepted and print(parse(y)) == y on generated modules in canonical and non-canonical spellings and on the corpus.",
+   note="as C01.", technique=T, design="§4 C02"),
+ "C03": dict(
+   text="Partial. Lean proof that constructed M-Core modules print to tokens the parser maps back to exactly what was constructed, and (C06) that constructors compute LLVM's type on "
+        "every well-typed operand tuple; correspondence on construction programs (API-built modules, every instruction constructor, constructed vs parsed numbering).",
+   note="as C01 plus the C06/C08 models.", technique=T, design="§4 C03"),
 }
 
 def main():
